@@ -321,7 +321,7 @@ func C12(r *vf.Run) {
 		if atomic.LoadInt32(&zeroCycle) != 0 {
 			r.SetExtra("rununtil_skipped", "a Step reported 0 cycles: RunUntil could spin, violation reported from the sweep")
 		} else {
-			n := r.N(4800, 480000)
+			n := r.N(4800, 1920000)
 			chunks := 96
 			r.Parallel(min(ncpu, 8), chunks, func(wi, ci int) {
 				A, B := getSysRig(), getSysRig()
